@@ -33,6 +33,9 @@ type tblShape struct {
 	N     int    `json:"n"`     // number of partitions; -1 = blank disk (no table)
 	Alt   bool   `json:"alt"`   // other geometry / names / types
 	GUID2 bool   `json:"guid2"` // other disk GUID
+	// Foreign > 0 (old tables only): the disk was partitioned by another tool - an entry array of that many slots (three of them
+	// used), first usable sector directly behind it; built byte by byte (gptcraft.go), not by the library
+	Foreign int `json:"foreign_slots,omitempty"`
 }
 
 type crashPair struct {
@@ -131,7 +134,14 @@ type pendingSector struct {
 func runCrashPair(p *crashPair, st *crashStats, only *crashCase) string {
 	base := memdev.New(p.DiskSize)
 	var oldView *tblView
-	if ot := shapeTable(p.Old, p.LSS, p.DiskSize, p.PMBR); ot != nil {
+	if p.Old.Foreign > 0 {
+		craftForeign(base, &foreignCase{Count: p.Old.Foreign, LSS: p.LSS, DiskSize: p.DiskSize, Used: 3, Layout: "tight", PMBR: p.PMBR})
+		rt, err := gpt.Read(be(base, true), p.LSS, p.LSS)
+		if err != nil {
+			return "INFRA: crafted old table unreadable: " + err.Error()
+		}
+		oldView = viewOf(rt)
+	} else if ot := shapeTable(p.Old, p.LSS, p.DiskSize, p.PMBR); ot != nil {
 		if err := ot.Write(base, p.DiskSize); err != nil {
 			return "INFRA: old table refused: " + err.Error()
 		}
@@ -174,6 +184,9 @@ func runCrashPair(p *crashPair, st *crashStats, only *crashCase) string {
 		return "write panic " + pm
 	}
 	if werr != nil {
+		if p.Old.Foreign > 0 && p.Via != "" {
+			return "" // a table object read from a 4-slot disk cannot take 40 partitions: refused, nothing written (judged by C02/C03)
+		}
 		return "INFRA: new table refused: " + werr.Error()
 	}
 	events := work.Events
@@ -416,6 +429,7 @@ func C09(r *ev.Run) {
 		{Name: "blank", N: -1}, {Name: "empty", N: 0}, {Name: "one", N: 1}, {Name: "four", N: 4},
 		{Name: "four-alt-guid2", N: 4, Alt: true, GUID2: true}, {Name: "forty", N: 40}, {Name: "full128-guid2", N: 128, GUID2: true},
 		{Name: "one-guid2", N: 1, GUID2: true}, {Name: "four-alt", N: 4, Alt: true},
+		{Name: "foreign-4-slots", N: 3, Foreign: 4}, {Name: "foreign-56-slots", N: 3, Foreign: 56},
 	}
 	var pairs []crashPair
 	for _, lss := range []int{512, 4096} {
@@ -424,10 +438,13 @@ func C09(r *ev.Run) {
 			for _, pm := range []bool{true, false} {
 				for oi, o := range shapes {
 					for ni, n := range shapes {
-						if n.N < 0 {
+						if n.N < 0 || n.Foreign > 0 {
 							continue
 						}
 						if r.Quick() && ((lss != 512 || dsz != 10<<20 || !pm) && (oi+ni)%3 != 0) {
+							continue
+						}
+						if o.Foreign > 0 && (!pm || (r.Quick() && dsz != 10<<20)) {
 							continue
 						}
 						pairs = append(pairs, crashPair{Old: o, New: n, LSS: lss, DiskSize: dsz, PMBR: pm})
@@ -458,7 +475,7 @@ func C09(r *ev.Run) {
 	}
 	sort.Strings(ls)
 	r.Set("write_log_shapes", ls)
-	r.Set("rule", "for every ordered pair (old,new) of table shapes {blank, empty, 1, 4, 4 other geometry/names/types/GUID, 40, 128 partitions, same/different disk GUID} x sector size x disk size x protective MBR x lineage of the written object {built by the caller, read from the disk and modified, the same after the disk had been repaired from its backup copy}: the real Table.Write runs on a logging device; every prefix of its WriteAt/Sync log x every subset (<=12 differing sectors: all 2^n subsets; more: none/all/single/all-but-one/first-k/last-k/even/odd) of the 512-byte sectors of the unsynced writes that change the medium is materialised and read with gpt.Read and partition.Read; distinct_nontrivial = distinct device images among the crash states")
+	r.Set("rule", "for every ordered pair (old,new) of table shapes {blank, empty, 1, 4, 4 other geometry/names/types/GUID, 40, 128 partitions, same/different disk GUID; as old table also a disk partitioned by another tool with a 4-slot and a 56-slot entry array directly in front of the first partition} x sector size x disk size x protective MBR x lineage of the written object {built by the caller, read from the disk and modified, the same after the disk had been repaired from its backup copy}: the real Table.Write runs on a logging device; every prefix of its WriteAt/Sync log x every subset (<=12 differing sectors: all 2^n subsets; more: none/all/single/all-but-one/first-k/last-k/even/odd) of the 512-byte sectors of the unsynced writes that change the medium is materialised and read with gpt.Read and partition.Read; distinct_nontrivial = distinct device images among the crash states")
 	// the enumerated space is the one the rule spells out (all subsets up to the limit, the generating family above it);
 	// how often the family stood in for all subsets is reported next to it
 	r.Set("exhaustive", done == len(pairs))
